@@ -100,8 +100,13 @@ func Genesis(app *chain.App, variant string) map[string]json.RawMessage {
 			m{"key": 3, "id": "B100", "admin": ActorAddr(6).Bytes(), "metadata": "g", "credit_type_abbrev": "B"}})
 		set("regen.ecocredit.v1.ClassIssuer", []m{{"class_key": 1, "issuer": admin.Bytes()}, {"class_key": 1, "issuer": ActorAddr(1).Bytes()}, {"class_key": 2, "issuer": ActorAddr(5).Bytes()}, {"class_key": 3, "issuer": ActorAddr(6).Bytes()}})
 		set("regen.ecocredit.v1.ClassSequence", []m{{"credit_type_abbrev": "C", "next_sequence": 10}, {"credit_type_abbrev": "CC", "next_sequence": 99}, {"credit_type_abbrev": "B", "next_sequence": 101}})
-		set("regen.ecocredit.v1.Project", []interface{}{2, m{"key": 1, "id": "C09-099", "admin": admin.Bytes(), "class_key": 1, "jurisdiction": "US", "metadata": "p", "reference_id": ""},
-			m{"key": 2, "id": "B100-001", "admin": ActorAddr(6).Bytes(), "class_key": 3, "jurisdiction": "US", "metadata": "p", "reference_id": ""}})
+		// two projects carry a reference id LONGER than the 32 bytes a message may use (the state validator
+		// has no such limit: only a genesis file can bring one in), and they share it
+		longRef := "urn:registry:verra:VCS-000000000000000001234"
+		set("regen.ecocredit.v1.Project", []interface{}{4, m{"key": 1, "id": "C09-099", "admin": admin.Bytes(), "class_key": 1, "jurisdiction": "US", "metadata": "p", "reference_id": ""},
+			m{"key": 2, "id": "B100-001", "admin": ActorAddr(6).Bytes(), "class_key": 3, "jurisdiction": "US", "metadata": "p", "reference_id": ""},
+			m{"key": 3, "id": "C09-050", "admin": ActorAddr(1).Bytes(), "class_key": 1, "jurisdiction": "KE", "metadata": "p", "reference_id": longRef},
+			m{"key": 4, "id": "C09-051", "admin": ActorAddr(LongActor).Bytes(), "class_key": 1, "jurisdiction": "KE", "metadata": "p", "reference_id": longRef}})
 		set("regen.ecocredit.v1.ProjectSequence", []m{{"class_key": 1, "next_sequence": 100}, {"class_key": 3, "next_sequence": 2}})
 		set("regen.ecocredit.v1.BatchSequence", []m{{"project_key": 1, "next_sequence": 999}})
 		// a batch that exists only through the genesis file, with the zero columns of its supply and balance
@@ -185,7 +190,7 @@ func (g *Gen) Bootstrap(e *eng.Engine, refresh func()) {
 	// projects + batches
 	dates := [][2]time.Time{
 		{time.Date(2020, 1, 1, 0, 0, 0, 0, time.UTC), time.Date(2021, 1, 1, 0, 0, 0, 0, time.UTC)},
-		{time.Date(1969, 6, 1, 0, 0, 0, 0, time.UTC), time.Date(1970, 6, 1, 0, 0, 0, 0, time.UTC)},
+		{time.Date(1969, 6, 1, 17, 30, 0, 250, time.UTC), time.Date(1970, 6, 1, 0, 0, 0, 0, time.UTC)}, // before 1970 and not at midnight: negative, non-day-aligned Unix seconds
 		{time.Date(2031, 1, 1, 0, 0, 0, 0, time.UTC), time.Date(2031, 6, 1, 0, 0, 0, 0, time.UTC)},
 		{time.Date(2010, 5, 5, 5, 5, 5, 5, time.UTC), time.Date(2011, 1, 1, 0, 0, 0, 0, time.UTC)},
 	}
@@ -319,6 +324,36 @@ func (g *Gen) Bootstrap(e *eng.Engine, refresh func()) {
 					d := r.Resps[0].(*basetypes.MsgCreateBatchResponse).BatchDenom
 					ex("put-all", &baskettypes.MsgPut{Owner: A[2], BasketDenom: "eco.uC.NCT", Credits: []*baskettypes.BasketCredit{{BatchDenom: d, Amount: "15"}}})
 					ex("put-all", &baskettypes.MsgPut{Owner: A[2], BasketDenom: "eco.uC.NCT", Credits: []*baskettypes.BasketCredit{{BatchDenom: d, Amount: "25"}}})
+				}
+			}
+		}
+	}
+	// machine-word boundaries: retired holdings that are whole numbers just below 2^64 and 2^63 receive a
+	// small whole-number purchase with auto-retire (balance and supply cross the word boundary), and a
+	// tradable holding just below 2^64 receives a whole-number transfer
+	if len(g.V.ProjectList) > 0 {
+		p := g.V.ProjectList[0]
+		if c := g.V.Classes[p.ClassKey]; c != nil {
+			if iss := sortedKeys(g.V.Issuers[c.Key]); len(iss) > 0 {
+				s, en := time.Date(2023, 3, 3, 0, 0, 0, 0, time.UTC), time.Date(2023, 12, 3, 0, 0, 0, 0, time.UTC)
+				r := e.Exec(eng.Tx{Msgs: []sdk.Msg{&basetypes.MsgCreateBatch{Issuer: iss[0], ProjectId: p.Id, Metadata: "word boundary", StartDate: &s, EndDate: &en, Issuance: []*basetypes.BatchIssuance{
+					{Recipient: A[6], RetiredAmount: "18446744073709551610", RetirementJurisdiction: "US"},
+					{Recipient: A[7], RetiredAmount: "9223372036854775800", RetirementJurisdiction: "US"},
+					{Recipient: A[4], TradableAmount: "18446744073709551610"},
+					{Recipient: A[5], TradableAmount: "100"}}}}, Tag: "bootstrap/batch-word-boundary"})
+				refresh()
+				if r != nil && r.OK {
+					d := r.Resps[0].(*basetypes.MsgCreateBatchResponse).BatchDenom
+					rs := e.Exec(eng.Tx{Msgs: []sdk.Msg{&markettypes.MsgSell{Seller: A[5], Orders: []*markettypes.MsgSell_Order{{BatchDenom: d, Quantity: "40", AskPrice: coin("stake", 2), DisableAutoRetire: false}}}}, Tag: "bootstrap/sell-word-boundary"})
+					refresh()
+					if rs != nil && rs.OK {
+						id := rs.Resps[0].(*markettypes.MsgSellResponse).SellOrderIds[0]
+						bid, mf := coin("stake", 2), coin("stake", 1000)
+						for _, buyer := range []string{A[6], A[7]} {
+							ex("buy-word-boundary", &markettypes.MsgBuyDirect{Buyer: buyer, Orders: []*markettypes.MsgBuyDirect_Order{{SellOrderId: id, Quantity: "10", BidPrice: bid, DisableAutoRetire: false, RetirementJurisdiction: "US", MaxFeeAmount: mf}}})
+						}
+					}
+					ex("send-word-boundary", &basetypes.MsgSend{Sender: A[5], Recipient: A[4], Credits: []*basetypes.MsgSend_SendCredits{{BatchDenom: d, TradableAmount: "10", RetiredAmount: "10", RetirementJurisdiction: "US"}}})
 				}
 			}
 		}
